@@ -17,22 +17,36 @@ Proof. destruct v; reflexivity. Qed.
 
 Definition modes_of (v : vt) := (vis v, m1000 v, m1003 v, altbuf v, title v).
 
-Lemma advance_cur st :
-  ts_cur (advance_cursor st) =
+Lemma advance_cur st g : is_control_glyph g = false ->
+  ts_cur (advance_cursor st g) =
   match ts_cur st with
   | Some (x, y) => if x + 1 =? fst (ts_size st) then None else Some (x + 1, y)
   | None => None
   end.
 Proof.
-  unfold advance_cursor. destruct (ts_cur st) as [[x y]|] eqn:E; [|exact E].
+  intros Hg. unfold advance_cursor. rewrite Hg. destruct (ts_cur st) as [[x y]|] eqn:E; [|exact E].
   destruct (x + 1 =? fst (ts_size st)); reflexivity.
 Qed.
-Lemma advance_other st :
-  ts_size (advance_cursor st) = ts_size st /\ ts_last (advance_cursor st) = ts_last st /\
-  ts_saved (advance_cursor st) = ts_saved st /\ ts_vis (advance_cursor st) = ts_vis st.
+Lemma advance_cur_control st g : is_control_glyph g = true -> ts_cur (advance_cursor st g) = None.
+Proof.
+  intros Hg. unfold advance_cursor. rewrite Hg. destruct (ts_cur st) as [[x y]|] eqn:E; [reflexivity|exact E].
+Qed.
+Lemma advance_other st g :
+  ts_size (advance_cursor st g) = ts_size st /\ ts_last (advance_cursor st g) = ts_last st /\
+  ts_saved (advance_cursor st g) = ts_saved st /\ ts_vis (advance_cursor st g) = ts_vis st.
 Proof.
   unfold advance_cursor. destruct (ts_cur st) as [[x y]|]; [|repeat split].
+  destruct (is_control_glyph g); [repeat split|].
   destruct (x + 1 =? fst (ts_size st)); repeat split.
+Qed.
+
+Lemma displayable_not_control g : displayable g = true -> is_control_glyph g = false.
+Proof.
+  unfold displayable, is_control_glyph.
+  destruct (cs_eqb (gcs g) CsUtf8).
+  - intros H. apply andb_prop in H as [_ H].
+    destruct (g0 g <=? 127) eqn:E; [lia|]. lia.
+  - intros H. lia.
 Qed.
 
 Lemma adv_lt x w : (x <? w) = true -> (x + 1 =? w) = false -> (x + 1 <? w) = true.
@@ -168,7 +182,7 @@ Proof.
       assert (H1 : negb (128 <=? g0 g) = true) by lia. rewrite H1.
       unfold vt_bytes, fold_left, vt_byte. rewrite Hg.
       assert ((g0 g =? 27) = false) as -> by lia.
-      unfold vt_text. rewrite Hu, Hsh. rewrite Hd. reflexivity.
+      unfold vt_text. assert ((g0 g <? 32) = false) as -> by lia. rewrite Hu, Hsh. rewrite Hd. reflexivity.
     + assert (H1 : negb (128 <=? g0 g) = false) by lia. rewrite H1.
       destruct (g2 g =? 0) eqn:E2.
       * (* two bytes *)
@@ -176,7 +190,7 @@ Proof.
         assert (H3 : negb (128 <=? g2 g) = true) by lia. rewrite H3.
         unfold vt_bytes, fold_left. unfold vt_byte at 2. rewrite Hg.
         assert ((g0 g =? 27) = false) as -> by lia.
-        unfold vt_text. rewrite Hu.
+        unfold vt_text. assert ((g0 g <? 32) = false) as -> by lia. rewrite Hu.
         assert ((32 <=? g0 g) && (g0 g <=? 126) = false) as -> by lia.
         assert ((194 <=? g0 g) && (g0 g <=? 223) = true) as -> by lia.
         unfold vt_byte. cbn [lex set_lex].
@@ -187,7 +201,7 @@ Proof.
         assert (H3 : negb (128 <=? g2 g) = false) by lia. rewrite H3.
         unfold vt_bytes, fold_left. unfold vt_byte at 3. rewrite Hg.
         assert ((g0 g =? 27) = false) as -> by lia.
-        unfold vt_text. rewrite Hu.
+        unfold vt_text. assert ((g0 g <? 32) = false) as -> by lia. rewrite Hu.
         assert ((32 <=? g0 g) && (g0 g <=? 126) = false) as -> by lia.
         assert ((194 <=? g0 g) && (g0 g <=? 223) = false) as -> by lia.
         assert ((224 <=? g0 g) && (g0 g <=? 239) = true) as -> by lia.
@@ -200,7 +214,7 @@ Proof.
   - unfold wire. rewrite Eu. unfold cs_ok in Hcs. rewrite Eu in Hcs. destruct Hcs as [Hu Hg0].
     unfold vt_bytes, fold_left, vt_byte. rewrite Hg.
     assert ((g0 g =? 27) = false) as -> by lia.
-    unfold vt_text. rewrite Hu, Hg0.
+    unfold vt_text. assert ((g0 g <? 32) = false) as -> by lia. rewrite Hu, Hg0.
     assert (((32 <=? g0 g) && (g0 g <=? 126) || (160 <=? g0 g)) = true) as -> by lia.
     reflexivity.
 Qed.
@@ -297,7 +311,7 @@ Proof.
   destruct F as (Flex & Fmal & Funk & Fsize & Frend & Fg0 & Futf & Fsaved & Fmodes).
   set (v3 := put_glyph cfg v2 (bytes_of (eg e)) (shown_of (eg e))) in *.
   assert (Hsz : vsize v2 = vsize v) by reflexivity.
-  destruct (advance_other (set_last st (Some e))) as (Asz & Ala & Asv & Avi).
+  destruct (advance_other (set_last st (Some e)) (eg e)) as (Asz & Ala & Asv & Avi).
   cbn [ts_size ts_last ts_saved ts_vis set_last] in Asz, Ala, Asv, Avi.
   split.
   - constructor.
@@ -307,7 +321,8 @@ Proof.
     + rewrite Fsize, Asz. exact Ssize.
     + unfold last_cs. rewrite Ala. unfold cs_ok in *. rewrite Fg0, Futf. exact Hcs2.
     + intros l' Hl'. rewrite Ala in Hl'. inversion Hl'; subst l'. rewrite Frend. reflexivity.
-    + intros p Hp. rewrite advance_cur in Hp. cbn [ts_cur ts_size set_last] in Hp.
+    + intros p Hp. rewrite advance_cur in Hp by (apply displayable_not_control; exact Hdisp).
+      cbn [ts_cur ts_size set_last] in Hp.
       destruct (ts_cur st) as [[x y]|] eqn:Ec; [|discriminate].
       destruct (x + 1 =? fst (ts_size st)) eqn:Ex; [discriminate|].
       inversion Hp; subst p. clear Hp.
